@@ -101,16 +101,18 @@ func (r *R) Sample(v interface{}) {
 // Violation records a violation; at most 3 witnesses per signature are kept.
 func (r *R) Violation(sig, what string, replay interface{}) {
 	r.mu.Lock()
-	defer r.mu.Unlock()
 	r.violSeen[sig]++
 	r.Counters["violations_total"]++
 	if r.violSeen[sig] > 2 {
+		r.mu.Unlock()
 		return
 	}
 	v := Violation{Sig: sig, What: what, Replay: replay}
 	r.Violations = append(r.Violations, v)
-	if r.OnViolation != nil {
-		r.OnViolation(v)
+	cb := r.OnViolation
+	r.mu.Unlock()
+	if cb != nil {
+		cb(v) // outside the lock: the callback prints under the output lock, which snapshot writers take first
 	}
 }
 
